@@ -88,3 +88,56 @@ def same_result(a, b, name=""):
     return True
 
 
+
+
+def _flat_arrays(r):
+    if r is None:
+        return []
+    if hasattr(r, "proj_data"):
+        out = [np.array(r.proj_data, copy=True)]
+        if getattr(r, "aux_data", None) is not None:
+            out.append(np.array(r.aux_data, copy=True))
+        return out
+    if isinstance(r, (tuple, list)):
+        out = []
+        for x in r:
+            out += _flat_arrays(x)
+        return out
+    return [np.array(r, copy=True)]
+
+
+def purity_violations(name, f, args, key_prefix="purity", rtol=1e-12):
+    """A function of the library called with array arguments must (i) leave the arguments bitwise unchanged,
+    (ii) give the same answer from fresh copies of the arguments and from the same arrays again (no hidden
+    state), (iii) not rewrite arrays it returned earlier.  Returns a list of violation dicts."""
+    v = []
+    base = name.split("/")[0]
+    snaps = [np.array(a, copy=True) if isinstance(a, np.ndarray) else a for a in args]
+    r1 = _flat_arrays(f(*args))
+    for k, (a, s0) in enumerate(zip(args, snaps)):
+        if isinstance(a, np.ndarray) and (a.shape != s0.shape or not np.array_equal(a, s0, equal_nan=(a.dtype.kind in "fc"))):
+            v.append({"key": "%s/argument-modified/%s" % (key_prefix, base), "msg": "%s changed its argument %d in place: %r -> %r" % (name, k, s0.tolist(), a.tolist())})
+    keep = [x.copy() for x in r1]
+    r2 = _flat_arrays(f(*[np.array(s0, copy=True) if isinstance(s0, np.ndarray) else s0 for s0 in snaps]))
+    r3 = _flat_arrays(f(*args)) if not v else r2
+
+    def same(xs, ys):
+        if len(xs) != len(ys):
+            return False
+        for x, y in zip(xs, ys):
+            if x.shape != y.shape:
+                return False
+            try:
+                if not np.allclose(x.astype(complex), y.astype(complex), rtol=rtol, atol=rtol, equal_nan=True):
+                    return False
+            except (TypeError, ValueError):
+                if repr(x.tolist()) != repr(y.tolist()):
+                    return False
+        return True
+    if not same(keep, r2):
+        v.append({"key": "%s/answer-changes/%s/fresh-arguments" % (key_prefix, base), "msg": "%s answers differently the second time (fresh copies of the same arguments)" % name})
+    if not same(keep, r3):
+        v.append({"key": "%s/answer-changes/%s/same-arguments-again" % (key_prefix, base), "msg": "%s answers differently when called again with the same arrays" % name})
+    if not same(r1, keep) or any(not np.array_equal(x, y, equal_nan=(x.dtype.kind in "fc")) for x, y in zip(r1, keep)):
+        v.append({"key": "%s/returned-array-rewritten/%s" % (key_prefix, base), "msg": "%s: an array returned earlier was changed by a later call" % name})
+    return v
